@@ -475,20 +475,22 @@ def check_c15(tier, deadline):
 def check_c16(tier, deadline):
     rep = Report("C16", tier, "fault_enumeration")
     runs = []
-    plan = [("plain", "full", 0.4), ("asan", "boundary" if tier == "quick" else "full", 2.0)]
-    for flavour, profile, limit in plan:
+    # (flavour, profile, per-load limit, primed): primed = the loader children are forked from a process that has already loaded valid files
+    plan = [("plain", "full", 0.4, False), ("plain", "boundary", 0.4, True), ("asan", "boundary", 2.0, True)] if tier == "quick" else \
+           [("plain", "full", 0.4, False), ("plain", "full", 0.4, True), ("asan", "full", 2.0, False), ("asan", "boundary", 2.0, True)]
+    for flavour, profile, limit, primed in plan:
         bdir = build(flavour, ("drv_damage",))
         sc = scratch_dir("c16" + flavour); out = os.path.join(sc, "out.json")
         env = dict(os.environ)
         if flavour == "asan":
             env["ASAN_OPTIONS"] = "detect_leaks=0:allocator_may_return_null=0:max_allocation_size_mb=1024:abort_on_error=0"
             env["UBSAN_OPTIONS"] = "print_stacktrace=1:halt_on_error=1"
-        cmd = [os.path.join(bdir, "drv_damage"), "--tier", tier, "--profile", profile, "--limit", str(limit), "--workers", str(WORKERS), "--deadline", str(deadline / 2), "--scratch", sc, "--out", out]
+        cmd = [os.path.join(bdir, "drv_damage"), "--tier", tier, "--profile", profile, "--limit", str(limit), "--workers", str(WORKERS), "--deadline", str(deadline / len(plan)), "--scratch", sc, "--out", out] + (["--primed"] if primed else [])
         r = sh(cmd, env=env, capture_output=True, text=True)
         if r.returncode != 0 or not os.path.exists(out):
             log("driver failed", " ".join(cmd), r.stdout[-1000:], r.stderr[-1000:]); raise SystemExit(3)
         d = json.load(open(out)); shutil.rmtree(sc, ignore_errors=True)
-        log(f"[damage] {flavour}/{profile}: cases={d['cases']} done={d['done']} outcomes={d['outcomes']} {d['wall_s']}s")
+        log(f"[damage] {flavour}/{profile}{'/primed' if primed else ''}: cases={d['cases']} done={d['done']} outcomes={d['outcomes']} {d['wall_s']}s")
         for v in d["violations"]:
             rep.add(v["sig"], f"damaged file makes the loader end in '{v['sig'].split('/')[0]}' ({flavour} build)", {"engine": "damage", "tier": tier, "flavour": flavour, "input": v["case"]}, v["count"])
         runs.append(d)
@@ -496,9 +498,10 @@ def check_c16(tier, deadline):
                     "rule": "5 small valid base files (blank, points only, points+analogs+events, multi-dimensional parameters, leading zeros) from the independent encoder; damage = every truncation length; "
                             "every byte of header + parameter section + first data block x {0,1,0x7F,0x80,0xFF}; every structural byte (name lengths, ids, next-offsets, types, dimension counts, dimensions, "
                             "description lengths, prologue, header counts/range/data start) x all 256 values; pairs of structural bytes x boundary values (2 bases quick, all thorough); each damaged file loaded in a forked "
-                            "child (plain build: address-space cap + watchdog, timeouts re-run alone with a 10x limit; ASan build: sanitizer reports); every case is a distinct damaged input",
+                            "child (plain build: address-space cap + watchdog, timeouts re-run alone with a 10x limit; ASan build: sanitizer reports); every case is a distinct damaged input; 'primed' runs fork the children from a process that has already loaded 12 valid files "
+                            "(process-wide state left by earlier loads is warm), the others from a process that never ran library code",
                     "exhaustive": all(d["done"] >= d["cases"] for d in runs),
-                    "runs": [{k: d[k] for k in ("flavour", "profile", "cases", "single_damage_cases", "pair_cases", "done", "outcomes", "wall_s", "limit_s", "bases")} for d in runs],
+                    "runs": [{k: d[k] for k in ("flavour", "profile", "primed_with_valid_loads", "cases", "single_damage_cases", "pair_cases", "done", "outcomes", "wall_s", "limit_s", "bases")} for d in runs],
                     "samples": runs[0]["samples"]}
     rep.assumptions = ["an allocation request that fails at once even under an 8 GiB cap (std::length_error / std::bad_alloc from an absurd count) is a clean refusal; growth that only the small cap stops is reported as memory_not_proportional"]
     return rep.finish()
